@@ -209,12 +209,12 @@ PROPS["C12"] = dict(
     trusted_base=COMMON_TB + ["cppcms::http::file is a stub (raw storage; name/filename/mime recorded; write_data() returns a recording stream): models/stubs_httpfile.c + harness",
                               "std::istream::seekg is a no-op; std::locale facets are null"],
     assumptions=["boundary keys consist of RFC 2046 bchars (no CR); the matcher step obligation is inductive: the pending-prefix state q and the chunk are arbitrary"],
-    outside="part-header grammar (process_header is cut in the matcher obligation), declared-length accounting in request::on_content_progress, urlencoded bodies (C15.b2 covers the decoder), temp-file spill-over and lifetime, content filters",
+    outside="part-header grammar (process_header is cut in the matcher obligation), declared-length accounting in request::on_content_progress, urlencoded bodies (C15.b2 covers the decoder), temp-file spill-over (file_buffer: harness/C12_filebuffer.cpp exists but exhausted 30 GB at 3 bytes), content filters",
     obligations=[
         dict(id="C12.a", harness="C12_multipart.cpp", entry="h_c12a_matcher_step", ctors=False, models=["stubs_httpfile.c"],
              noop=["_ZNSi5seekgE"], cut=["multipart_parser14process_header"],
              desc="multipart_parser::consume in the part-content state, one inductive step: from any pending prefix length q and for any chunk, the sink receives exactly the stream minus the pending delimiter prefix, the part completes exactly at the first delimiter, position_ is the longest suffix/prefix overlap",
-             tiers=T(quick=dict(defs=dict(VERIF_NK=1), split=[[0, 1, 2, 3, 4], [1, 2, 3, 4, 5]], unwind=12, unwindset={"F__ZN6cppcms4impl16multipart_parser7consumeERPKcS3_.0": "p1+2", "F__ZN6cppcms4impl16multipart_parser7consumeERPKcS3_.1": "p1+2"}, timeout=900, bounds="delimiter CRLF--k (k any bchar); pending prefix q in 0..4; chunk of 1..5 arbitrary bytes"),
+             tiers=T(quick=dict(defs=dict(VERIF_NK=1), split=[[0, 1, 2, 3, 4], [1, 2, 3, 4]], unwind=12, unwindset={"F__ZN6cppcms4impl16multipart_parser7consumeERPKcS3_.0": "p1+2", "F__ZN6cppcms4impl16multipart_parser7consumeERPKcS3_.1": "p1+2"}, timeout=900, bounds="delimiter CRLF--k (k any bchar); pending prefix q in 0..4; chunk of 1..4 arbitrary bytes"),
                      thorough=dict(defs=dict(VERIF_NK=2), split=[[0, 1, 2, 3, 4, 5], [1, 2, 3, 4, 5, 6, 7, 8]], unwind=16, unwindset={"F__ZN6cppcms4impl16multipart_parser7consumeERPKcS3_.0": "p1+2", "F__ZN6cppcms4impl16multipart_parser7consumeERPKcS3_.1": "p1+2"}, timeout=3000, bounds="delimiter CRLF--k1k2; pending prefix q in 0..5; chunk of 1..8 arbitrary bytes"))),
         dict(id="C12.a-k2", harness="C12_multipart.cpp", entry="h_c12a_matcher_step", ctors=False, models=["stubs_httpfile.c"],
              noop=["_ZNSi5seekgE"], cut=["multipart_parser14process_header"],
@@ -280,14 +280,19 @@ PROPS["C01"] = dict(
         dict(id="C01.c", harness="C01_fastcgi.cpp", entry="h_c01c_fcgi_roundtrip", ctors=False, clang_flags=["-fno-inline"],
              drop=["_ZN6cppcms4impl10string_map3addEPKcS3_"], roots=["verif_env_add"], models=["stubs_c02.c"],
              desc="fastcgi::parse_pairs/read_len: decoding the FastCGI name-value encoding (1-byte and 4-byte length forms, chosen symbolically per field) returns exactly the encoded pairs in order",
-             tiers=T(quick=dict(split=[[1, 3], [0, 2]], unwind=22, unwindset={"F__ZN6cppcms4impl3cgi7fastcgi11parse_pairsEv.0": 4, "verif_memcpy.0": 6, "F__ZN6cppcms4impl11string_pool3addEPKcm.0": 5, "F__ZL15cstrlen_boundedPKh.0": 6}, timeout=900, bounds="first pair: name length in {1,3}, value length in {0,2}, symbolic bytes; second pair fixed; each of 4 length fields in either form"))),
+             tiers=T(quick=dict(split=[[1, 2], [0, 1]], unwind=22, unwindset={"F__ZN6cppcms4impl3cgi7fastcgi11parse_pairsEv.0": 4, "verif_memcpy.0": 5, "F__ZN6cppcms4impl11string_pool3addEPKcm.0": 4, "F__ZL15cstrlen_boundedPKh.0": 5}, timeout=900, bounds="first pair: name length in {1,2}, value length in {0,1}, symbolic bytes; second pair fixed; each of 4 length fields in either form"),
+                     thorough=dict(split=[[1, 3], [0, 2]], unwind=22, unwindset={"F__ZN6cppcms4impl3cgi7fastcgi11parse_pairsEv.0": 4, "verif_memcpy.0": 6, "F__ZN6cppcms4impl11string_pool3addEPKcm.0": 5, "F__ZL15cstrlen_boundedPKh.0": 6}, timeout=3000, bounds="first pair: name length in {1,3}, value length in {0,2}"))),
         dict(id="C01.d", harness="C01_fastcgi.cpp", entry="h_c01d_record_reassembly", ctors=False, clang_flags=["-fno-inline"],
              desc="fastcgi::non_blocking_read_record: a record is taken from the read cache only when header, content and padding are all present; exactly the content is appended to body_, padding skipped, cursors stay inside the cache; otherwise nothing changes (also C02: no access outside cache_)",
              tiers=T(quick=dict(split=[[0, 2]], unwind=20, timeout=900, bounds="16-byte cache with arbitrary bytes and arbitrary cursors 0<=start<=end<=16; 0 or 2 bytes already in body_"))),
+        dict(id="C01.d2", harness="C01_fastcgi.cpp", entry="h_c01d_async_body", ctors=False, clang_flags=["-fno-inline"],
+             desc="fastcgi::on_body_read (asynchronous record path): after a record's body arrived, body_ = previously accumulated bytes + this record's content, padding stripped exactly; handler called once",
+             tiers=T(quick=dict(split=[[0, 3]], unwind=20, timeout=600, bounds="0 or 3 bytes accumulated before; content 0..4, padding 0..7, bytes symbolic"))),
         dict(id="C01.e", harness="C02_scgi.cpp", entry="h_c01e_scgi_pairs", ctors=False, clang_flags=["-fno-inline"],
              drop=["_ZN6cppcms4impl10string_map3addEPKcS3_"], roots=["verif_env_add"], models=["stubs_c02.c"],
              desc="scgi::on_headers_chunk_read: a well-formed netstring header block delivers exactly its NUL-separated pairs, in order",
-             tiers=T(quick=dict(split=[[1, 3], [0, 2]], unwind=22, unwindset={SCGI_WALK: 5, "X_strlen.0": 6, "verif_memcpy.0": 6, "F__ZL15cstrlen_boundedPKh.0": 6}, timeout=900, bounds="first pair: name length in {1,3}, value length in {0,2}, symbolic bytes; second pair fixed"))),
+             tiers=T(quick=dict(split=[[1, 2], [0, 1]], unwind=22, unwindset={SCGI_WALK: 5, "X_strlen.0": 5, "verif_memcpy.0": 5, "F__ZL15cstrlen_boundedPKh.0": 5}, timeout=900, bounds="first pair: name length in {1,2}, value length in {0,1}, symbolic bytes; second pair fixed"),
+                     thorough=dict(split=[[1, 3], [0, 2]], unwind=22, unwindset={SCGI_WALK: 5, "X_strlen.0": 6, "verif_memcpy.0": 6, "F__ZL15cstrlen_boundedPKh.0": 6}, timeout=3000, bounds="first pair: name length in {1,3}, value length in {0,2}"))),
     ],
 )
 PROPS["C02"]["obligations"].append(
@@ -315,6 +320,9 @@ PROPS["C05"] = dict(
         dict(id="C05.a2", harness="C05_hmac_cipher.cpp", entry="h_c05a_roundtrip", ctors=False, cut=[STRING_REALLOC], nvec=0, replay="generated",
              desc="hmac_cipher: encrypt emits message || MAC(message); decrypt(encrypt(p)) == p for a functional MAC",
              tiers=T(quick=dict(defs=dict(VERIF_D=4), split=[[0, 1, 3]], unwind=12, timeout=600, bounds="D=4; every payload of length 0,1,3"))),
+        dict(id="C05.e", harness="C15_codecs.cpp", entry="h_c15d_b64_decode_safety", ctors=False,
+             desc="cookie framing: b64url::decode (string form used by session_cookies::load) rejects a length = 1 mod 4 by returning false (no exception), and never leaves its buffers for other lengths",
+             tiers=T(quick=dict(split=[[0, 1, 2, 4, 5, 9]], unwind=16, timeout=600, bounds="every byte string of length 0,1,2,4,5,9"))),
         dict(id="C05.d", harness="C05_hmac_cipher.cpp", entry="h_c05d_key_guard", ctors=False, nvec=0, replay="generated",
              desc="hmac_cipher constructor refuses exactly the keys shorter than 16 bytes",
              tiers=T(quick=dict(unwind=90, timeout=600, bounds="every 64-bit key size"))),
